@@ -43,8 +43,8 @@ func verifCanary(label string, cond bool) {}
 //@   let B = c.algo.blockSize
 //@   let S = c.algo.signatureLength
 //@   assigns c.maxBodySize
-//@   ensures [C38:formula] int(c.maxBodySize) == PB*((chunkSize-16)/B) - 8 - S - 1
-//@   ensures [C38:positive] c.maxBodySize > 0
+//@   ensures [C38,C07:formula] int(c.maxBodySize) == PB*((chunkSize-16)/B) - 8 - S - 1
+//@   ensures [C38,C07:positive] c.maxBodySize > 0
 //@   canary ensures [C38:canary-floor] int(c.maxBodySize) == PB*((chunkSize-16-1)/B) - 8 - S
 
 //@ func (*channelInstance).signAndEncrypt
@@ -376,7 +376,7 @@ func verifLemmaMaxBodyTight(c *channelInstance, m *Message, chunkSize int, chunk
 // Whatever the peer sent: no panic, an error never comes with data, and delivered data is the chunk's
 // own data or an array allocated by the instance that verified it (C20).
 //@ func (*SecureChannel).verifyAndDecrypt
-//@   props C13 C09 C20
+//@   props C13 C09 C20 C17
 //@   bytes
 //@   requires storedOK(s) && s.c != nil && m != nil && chunkDecoded(m, b)
 //@   requires instance != nil ==> instOK(instance)
